@@ -300,12 +300,14 @@ Definition matured_index (o : opts) (h : Z) : Z := chunk_index o h - 2.
 (* ------------------------------------------------------------------------------------------ *)
 (* the WITHDRAW_REWARD transaction (action/rewards/withdraw.go) as far as the cumulative records go.
    [value] is the amount field as sent (whole OLT).  Validate (run by CheckTx and, since d276709, by
-   DeliverTx) refuses a negative value (45cfd0d: WithdrawAmount.IsValid); runWithdraw then narrows
-   it with ToCoinWithBase — big.Int.Int64(), i.e. wrap64 — and multiplies by 10^18; the transaction
-   fails (and its session is discarded) when the matured balance or the rewards pool is short.
-   Result: (accepted, balance', withdrawn'). *)
+   DeliverTx) refuses a negative value (45cfd0d: WithdrawAmount.IsValid) and a value that does not
+   fit int64 (ed95e98: big.Int.IsInt64); runWithdraw then narrows it with ToCoinWithBase —
+   big.Int.Int64(), i.e. wrap64, the identity on what Validate lets through — and multiplies by
+   10^18; the transaction fails (and its session is discarded) when the matured balance or the
+   rewards pool is short.  Result: (accepted, balance', withdrawn'). *)
+Definition withdraw_amount_ok (value : Z) : bool := (0 <=? value) && (value <? 2^63).
 Definition withdraw_tx (value bal wd pool : Z) : bool * Z * Z :=
-  if value <? 0 then (false, bal, wd)
+  if negb (withdraw_amount_ok value) then (false, bal, wd)
   else
     let a := wrap64 value * UNIT in
     if (bal - a <? 0) || (pool - a <? 0) then (false, bal, wd)
